@@ -28,6 +28,8 @@ def run(ctx):
     ra = ctx.rule('R40.a', 'every map builder that announces virtual processes and succeeds has built (or delegated) the map', floor=4)
     rb = ctx.rule('R40.b', 'no read of an unassigned local on any path (vpmap.c)', floor=10)
     rc = ctx.rule('R40.c', 'no pointer just tested NULL is handed to a %s conversion or a str* function (vpmap.c)', floor=8)
+    rd = ctx.rule('R40.d', 'a loop that fills parsec_vpmap[v] for v < parsec_nbvp re-publishes the count (v + 1) on every early exit', floor=2)
+    check_partial_fill(ctx, u, rd)
     for name in BUILDERS:
         f = u.func(name)
         if f is None:
@@ -121,6 +123,78 @@ def run(ctx):
 # ---------------------------------------------------------------------------------------
 PRINTF = {'printf': 0, 'fprintf': 1, 'sprintf': 1, 'snprintf': 2, 'asprintf': 1, 'parsec_warning': 0, 'parsec_inform': 0, 'parsec_fatal': 0}
 STRFN = {'strlen', 'strcpy', 'strdup', 'strchr', 'strrchr', 'strcmp', 'strncmp', 'strtol', 'strtod', 'atoi', 'strcat', 'strstr'}
+
+
+def check_partial_fill(ctx, u, rd):
+    """The number of virtual processes is published in parsec_nbvp and every consumer walks parsec_vpmap[0 .. parsec_nbvp).
+    A loop `for (v = ..; v < parsec_nbvp; v++)` that builds the entries may stop early (the requested threads ran out):
+    the entries after v were never built, so the exit must publish parsec_nbvp = v + 1 - otherwise parsec_init creates
+    virtual processes without threads, in contradiction with the specification string."""
+    from sa import aff
+    n = 0
+    for fname, f in u.funcs().items():
+        if not f.file.endswith('vpmap.c'):
+            continue
+        for (src, hdr) in f.back_edges():
+            c = f.cond(hdr)
+            if c is None or c.k != 'bin' or c.op not in ('<', '>', '<=', '>=', '!=') or 'parsec_nbvp' not in (c.ch[0].s, c.ch[1].s):
+                continue
+            var = c.ch[0].s if c.ch[1].s == 'parsec_nbvp' else c.ch[1].s
+            body = {hdr, src}; st = [src]
+            while st:
+                x = st.pop()
+                if x == hdr:
+                    continue
+                for p_, _ in f.preds()[x]:
+                    if p_ not in body:
+                        body.add(p_); st.append(p_)
+            fills = [e for b in body for e in f.block_events(b) if e.kind == 'store' and e.lhs.s.startswith('parsec_vpmap[%s]' % var)]
+            if not fills:
+                continue
+            ctx.functions_analysed.add(fname)
+            # early exits: edges from a body block (other than the header) to a block outside the loop.  Blocks that
+            # can only reach an exit (goto target prologue) are not in the natural loop: walk back from them.
+            exits = []
+            for b in body:
+                if b == hdr:
+                    continue
+                for s_, lab in f.succs(b):
+                    if s_ not in body:
+                        exits.append((b, s_, lab))
+            n += 1
+            if not exits:
+                rd.ok(f.loc(f.blocks[hdr]['cond']) if f.blocks[hdr].get('cond') is not None else f.where(), '%s: the fill loop over %s < parsec_nbvp has no early exit' % (fname, var))
+                continue
+            for b, s_, lab in exits:
+                # fatal exits do not publish anything
+                if any(e.kind == 'call' and e.fn in ('parsec_fatal', 'exit', 'abort') for e in f.block_events(s_)) or any(e.kind == 'call' and e.fn in ('parsec_fatal', 'exit', 'abort') for e in f.block_events(b)):
+                    continue
+                # the exit target and what follows it lie outside the natural loop: every way from the exit edge to the
+                # end of the function must pass a block that publishes parsec_nbvp = v + 1 (or the exiting block did)
+                def publishes(bb):
+                    return any(e.kind == 'store' and e.lhs.s == 'parsec_nbvp' and e.op == '=' and e.rhs is not None and aff.norm(e.rhs) == aff.Poly.atom(var) + aff.Poly.const(1)
+                               for e in f.block_events(bb))
+                good = publishes(b)
+                if not good:
+                    seen = set(); stack = [s_]; escaped = False
+                    while stack:
+                        x = stack.pop()
+                        if x in seen or x in body:
+                            continue
+                        seen.add(x)
+                        if publishes(x):
+                            continue
+                        nxt = f.succs(x)
+                        if not nxt or x == f.exit:
+                            escaped = True; break
+                        stack.extend(y for y, _ in nxt)
+                    good = not escaped
+                last = f.block_events(b)[-1] if f.block_events(b) else None
+                rd.expect(bool(good), 'partial-fill:%s:%d' % (fname, len([x for x in exits if x[0] < b])), (last.loc if last is not None else f.where()),
+                          '%s leaves the loop that builds parsec_vpmap[%s] (for %s < parsec_nbvp) early without publishing parsec_nbvp = %s + 1: the entries after %s were never built'
+                          % (fname, var, var, var, var), note='%s: early exit of the fill loop publishes parsec_nbvp = %s + 1' % (fname, var))
+    if n == 0:
+        raise AnalysisBroken('no loop filling parsec_vpmap[v] for v < parsec_nbvp found in vpmap.c')
 
 
 def check_null_use(ctx, u, rc):
